@@ -342,8 +342,15 @@ func (x *rx) literal(cl *ast.CompositeLit, kind string, sv, elem, idx types.Obje
 	x.c.Check("R2.fields", name+"/type", cl.Pos(), isC && s == name, fmt.Sprintf("the line must carry type %q (found %q): a wrong type label makes the element unrecoverable", name, s))
 	// floats handed to json.Marshal
 	for tag, t := range typs {
-		b, isB := t.Underlying().(*types.Basic)
-		if !isB || b.Info()&types.IsFloat == 0 {
+		isFloat := func(t types.Type) bool {
+			if t == nil {
+				return false
+			}
+			b, isB := t.Underlying().(*types.Basic)
+			return isB && b.Info()&types.IsFloat != 0
+		}
+		// a float field, or an interface field initialised with a float (json.Marshal sees the dynamic float)
+		if !isFloat(t) && !(types.IsInterface(t) && isFloat(x.info.TypeOf(vals[tag]))) {
 			continue
 		}
 		if _, isConst := x.info.Types[vals[tag]]; isConst && x.info.Types[vals[tag]].Value != nil {
